@@ -73,6 +73,38 @@ example : «exists» (memOf [["example".toList, "com".toList]] [["ads".toList, "
 example : «exists» (memOf [["example".toList, "com".toList]] [["ads".toList, "net".toList]] [["ok".toList, "example".toList, "com".toList]])
     (pres ["x".toList, "ok".toList, "example".toList, "com".toList]) = false := by decide
 
+
+/-- **Deep subdomains**: however many labels stand in front of a listed name
+(1 or 120 — there is no depth at which the walk gives up), the name is blocked. -/
+theorem deep_subdomain_blocked (E pre : Name) (hE : EntryOK E) (hpre : NameOK pre) :
+    «exists» (memOf [E] [] []) (pres (pre ++ E)) = true ∧
+    (pre ≠ [] → «exists» (memOf [] [E] []) (pres (pre ++ E)) = true) := by
+  have hK : NameOK (pre ++ E) := by
+    intro l hl
+    rcases List.mem_append.mp hl with h | h
+    · exact hpre l h
+    · exact hE.2.1 l h
+  have hlow : lowerName (pre ++ E) = lowerName pre ++ E := by
+    unfold lowerName; rw [List.map_append]; congr 1; exact hE.2.2
+  constructor
+  · rw [exists_iff_spec [E] [] [] (pre ++ E) hK (by simpa using hE) (by simp) (by simp)]
+    unfold specBlocked isSelfOrParent
+    rw [hlow]
+    simp
+  · intro hne
+    rw [exists_iff_spec [] [E] [] (pre ++ E) hK (by simp) (by simpa using hE) (by simp)]
+    unfold specBlocked isSelfOrParent isStrictParent
+    rw [hlow]
+    have : E ≠ lowerName pre ++ E := by
+      intro h
+      have := congrArg List.length h
+      simp [lowerName] at this
+      exact hne this
+    simp [this]
+
+example : «exists» (memOf [["ads".toList, "example".toList, "com".toList]] [] [])
+    (pres (List.replicate 30 "a".toList ++ ["ads".toList, "example".toList, "com".toList])) = true := by decide
+
 /-- **Case-insensitive**: two spellings that differ only in ASCII case get the
 same answer from every list — for queries … -/
 theorem case_insensitive (b : Mem) (q q' : Str) (h : lower q = lower q') :
@@ -307,6 +339,41 @@ theorem persist_converges (s0 : PState) (h0 : Init s0) (steps : List Step) :
   have hx' : x = { version := s.version, exact := s.mem.m, wild := s.mem.wild } := by
     cases x; simp only [Snap.mk.injEq]; simp only at this hxv; exact ⟨hxv, this.1, this.2⟩
   rw [hx']
+
+
+/-- **A successful call always queues the whole memory for disk**, also when it
+changed nothing: `Set` of a name that is already listed reports success (only the
+whitelist makes it fail), and every successful mutation is a step that bumps the
+version and appends a snapshot of the COMPLETE current maps.  So repeating a call
+after a failed save brings the file up to memory (`retry_after_failed_save`). -/
+theorem successful_call_snapshots (s : PState) (op : MutOp) (h : (applyOp s.mem op).2 = true) :
+    (step s (.mutate op)).version = s.version + 1 ∧
+    (step s (.mutate op)).pending = s.pending ++
+      [{ version := s.version + 1, exact := (step s (.mutate op)).mem.m, wild := (step s (.mutate op)).mem.wild }] ∧
+    (step s (.mutate op)).dirty = false := by
+  unfold step
+  simp [h]
+
+theorem set_succeeds_unless_whitelisted (b : Mem) (k : Str) :
+    (setLocked b k).2 = true ↔ matchHierarchy (canonical k) b.w = false := by
+  unfold setLocked
+  simp only
+  cases matchHierarchy (canonical k) b.w with
+  | true => simp
+  | false =>
+    simp only [Bool.false_eq_true, if_false]
+    split <;> simp
+
+/-- non-vacuity: the save of `a.com.` fails (`CreateTemp`), storage recovers,
+the operator repeats `Set(a.com.)` — nothing new in memory — and the file is
+brought up to date. -/
+theorem retry_after_failed_save :
+    let s1 := run {} [.mutate (.set "a.com.".toList), .begin 0 false]
+    (s1.main = none ∧ s1.mem.m = ["a.com.".toList] ∧ s1.pending = [] ∧ s1.failed = [1]) ∧
+    let s2 := run s1 [.mutate (.set "a.com.".toList), .begin 0 true, .write true, .write true, .sync true,
+      .close true, .rename true, .commit]
+    s2.mem.m = ["a.com.".toList] ∧ s2.main = some [headerLine, "a.com.".toList] := by
+  decide
 
 /-- **A directory reload touches no file**: it reads `local` and a staging file
 but leaves the main file, the staging file of a `persist` in progress, the
